@@ -220,14 +220,15 @@ Definition check_validity (data : list N) (c : tp_core) : outcome (list N * list
   if negb (is_nil p) || (match f with Some _ => true | None => false end) || (match q with Some _ => true | None => false end)
   then Err EMethodId else Ok (m, i)))))).
 
-(* CoreDID::parse: (method name, method-specific id) *)
-Definition core_did_parse (data : list N) : outcome (list N * list N) did_err :=
+(* CoreDID::parse as it was until the fix "CoreDID::parse splits the DID itself": two guards, the third-party parser, check_validity.
+   Kept as the reference route: what it accepted is still accepted, with the same components (core_did_parse_tp_included). *)
+Definition core_did_parse_tp (data : list N) : outcome (list N * list N) did_err :=
   if negb (list_eqb (trim data) data) then Err EScheme
   else if ends_with_pct data then Err EMethodId
   else obind (tp_parse data) (fun c => check_validity data c).
 
 (* TryFrom<BaseDIDUrl> for CoreDID: check_validity on a third-party value the CALLER parsed, WITHOUT the two guards of CoreDID::parse.
-   (Until fix "CoreDID is deserialised through CoreDID::parse" this was also serde's route; since then serde = core_did_parse.) *)
+   (Until fix "CoreDID is deserialised through CoreDID::parse" this was also serde's route; since then serde = CoreDID::parse.) *)
 Definition core_did_from_base (data : list N) : outcome (list N * list N) did_err :=
   obind (tp_parse data) (fun c => check_validity data c).
 
@@ -283,6 +284,24 @@ Fixpoint split_once (c : N) (l : list N) : option (list N * list N) :=
               else match split_once c r with Some (a, b) => Some (x :: a, b) | None => None end
   end.
 Fixpoint before_c (c : N) (l : list N) : list N := match l with [] => [] | x :: r => if x =? c then [] else x :: before_c c r end.
+(* CoreDID::parse (did.rs) since that fix: strip_prefix("did"), strip_prefix(':'), split_once(':') (no second colon: empty method id),
+   valid_method_name / valid_method_id on the two parts; the third-party value is then built from a placeholder with set_method /
+   set_method_id, which splice the text and shift the offsets - so its accessors return exactly (method, method id). *)
+Definition core_did_parse (data : list N) : outcome (list N * list N) did_err :=
+  match data with
+  | a :: b :: c :: r0 =>
+    if negb ((a =? 100) && (b =? 105) && (c =? 100)) then Err EScheme else
+    match r0 with
+    | col :: rest =>
+      if negb (is_colon col) then Err EMethodName else
+      let mi := match split_once 58 rest with Some p => p | None => (rest, []) end in
+      if is_nil (fst mi) || negb (valid_method_name (fst mi)) then Err EMethodName
+      else if is_nil (snd mi) || negb (valid_method_id (snd mi)) then Err EMethodId
+      else Ok mi
+    | [] => Err EMethodName
+    end
+  | _ => Err EScheme
+  end.
 Definition did_url_split_parse (data : list N) : outcome did_url did_err :=
   let rf := match split_once 35 data with Some (r, f) => (r, Some f) | None => (data, None) end in
   let rq := match split_once 63 (fst rf) with Some (r, q) => (r, Some q) | None => (fst rf, None) end in
@@ -386,20 +405,20 @@ Definition merge_paths (base_path ref : list N) : list N :=
   | _ => match rfind_slash base_path O None with Some i => firstn (S i) base_path ++ ref | None => base_path ++ ref end
   end.
 
-(* DIDUrl::join at the level of components.  The third-party setters that rebuild the string and shift the offsets of the joined value
-   are abstracted: the joined value's path / query / fragment are what transform_references hands to them (exercised, not proved). *)
+(* DIDUrl::join at the level of components, since the fix "join builds its base from the components": the receiver's DID value and
+   its path / query / fragment are handed to the third-party join (no re-parsing of the receiver's text); the SEGMENT is still read by
+   the third-party parse_relative (tp_rel_offsets), the result goes through from_base_did_url (the three setters, CoreDID::try_from).
+   The third-party setters that rebuild the string and shift the offsets of the joined value are abstracted (exercised, not proved). *)
 Definition did_url_join (u : did_url) (seg : list N) : outcome did_url did_err :=
   match seg with
   | c :: _ =>
     if negb ((c =? 47) || (c =? 63) || (c =? 35)) then Err EPath else
-    let s := did_url_to_string u in
-    obind (tp_parse s) (fun bc =>
     obind (tp_rel_offsets seg) (fun rc =>
     obind (tp_path seg rc) (fun P =>
     obind (tp_query seg rc) (fun Q =>
     obind (tp_fragment seg rc) (fun F =>
-    obind (tp_path s bc) (fun bp =>
-    obind (tp_query s bc) (fun bq =>
+    let bp := oapp (u_path u) in
+    let bq := match u_query u with Some q => Some (strip1 63 q) | None => None end in
     let path' := if is_nil P then bp
                  else if (match P with x :: _ => x =? 47 | [] => false end) then remove_dot_segments P
                  else remove_dot_segments (merge_paths bp P) in
@@ -407,10 +426,8 @@ Definition did_url_join (u : did_url) (seg : list N) : outcome did_url did_err :
     obind (set_path (Some path')) (fun up =>
     obind (set_query (match query' with Some x => Some (63 :: x) | None => None end)) (fun uq =>
     obind (set_fragment (match F with Some x => Some (35 :: x) | None => None end)) (fun uf =>
-    let base := firstn (o_path bc) s in
-    let cb := {| o_method := o_method bc; o_mid := o_mid bc; o_path := o_path bc; o_query := None; o_frag := None |} in
-    obind (check_validity base cb) (fun mi =>
-    Ok {| u_did := base; u_method := fst mi; u_mid := snd mi; u_path := up; u_query := uq; u_frag := uf |})))))))))))
+    if negb (valid_method_name (u_method u)) || negb (valid_method_id (u_mid u)) then Err EOther else
+    Ok {| u_did := u_did u; u_method := u_method u; u_mid := u_mid u; u_path := up; u_query := uq; u_frag := uf |})))))))
   | [] => Err EPath
   end.
 
